@@ -13,7 +13,7 @@ def run(ctx):
     if not quick:
         vlib.model_check(ctx, 'OciRegistryMC.tla', 'OciRegistryMC_up.cfg', what='uploads, mounts, all range pairs on 0/1/2-byte blobs')
     rc.reg_check(ctx, STACKS_Q if quick else STACKS_T, STRICT, n_tlc=8 if quick else 200, n_rand=24 if quick else 800,
-                 cover='OciRegistryCover_all.cfg', cover_sample=200 if quick else 8000, wire=300 if quick else -1,
+                 cover='OciRegistryCover_all.cfg', cover_sample=200 if quick else 4000, wire=300 if quick else -1,
                  profiles=('range', 'all', 'upload'), tlc_cfg='OciRegistryGenNoUp.cfg', honest=True, label='all stacks vs OciRegistry (content)')
     # third sentence of the property: corrupted content read through the client never ends in a clean EOF
     # (client fault family: model check of CorruptNeverCleanEOF, its response scripts through the real client, validation)
